@@ -730,9 +730,22 @@ func (in *Interp) visit(fr *frame, instr ssa.Instruction) cont {
 		*cell = in.zero(x.Type().(*types.Pointer).Elem())
 		fr.locals[x] = cell
 	case *ssa.MakeSlice:
-		n := in.concreteInt(in.get(fr, x.Len).(*Term), "make len")
-		c := in.concreteInt(in.get(fr, x.Cap).(*Term), "make cap")
-		if n < 0 || c < n || c > 1<<24 {
+		lt := in.ts.Sext(64, in.get(fr, x.Len).(*Term))
+		ct := in.ts.Sext(64, in.get(fr, x.Cap).(*Term))
+		if !lt.IsConst() || !ct.IsConst() {
+			// run-time check of makeslice: 0 <= len <= cap and the allocation must be possible (we take 2^40
+			// elements as "cannot be allocated": the process dies with a panic or out of memory)
+			ok := in.ts.And(in.ts.BvSle(in.ts.BV(64, 0), lt), in.ts.BvSle(lt, ct), in.ts.BvSlt(ct, in.ts.BV(64, 1<<40)))
+			if !in.branch(fr, x, ok) {
+				in.rtPanic("makeslice: len/cap out of range (or allocation too large)")
+			}
+		}
+		n := in.concreteInt(lt, "make len")
+		c := n
+		if ct.IsConst() {
+			c = int(ct.SVal())
+		} // a symbolic capacity only matters for aliasing of later appends: modelled as cap = len
+		if n < 0 || c < n || c > 1<<26 {
 			in.rtPanic("makeslice: len out of range")
 		}
 		et := x.Type().Underlying().(*types.Slice).Elem()
